@@ -19,13 +19,28 @@ use vh::*;
 
 const LOCKS: &[&str] = &[
     "write_lock", "wal", "label_interner", "published_labels", "index_catalog", "idmap", "pager", "vector_index",
-    "published_node_labels", "published_runs", "published_segments", "stats_cache",
+    "published_node_labels", "published_runs", "published_segments", "stats_cache", "publish_lock", "db_file_lock",
 ];
+
+/// event name -> (lock name, Coq mode): `<lock>.r` shared, `<lock>.w` exclusive, `<lock>.try` non-blocking, bare = Mutex
+fn split(ev: &str) -> (&str, &'static str) {
+    if let Some(b) = ev.strip_suffix(".r") {
+        (b, "MR")
+    } else if let Some(b) = ev.strip_suffix(".w") {
+        (b, "MW")
+    } else if let Some(b) = ev.strip_suffix(".try") {
+        (b, "MTry")
+    } else {
+        (ev, "MW")
+    }
+}
 
 fn writer(db: &Db, id: u64, iters: u64, seed: u64, ext: &AtomicU64) {
     let mut r = Rng::new(seed);
     for i in 0..iters {
+        set_op("Db::begin_write");
         let mut tx = db.begin_write();
+        set_op("WriteTxn::{get_or_create_label,create_node,set_node_property,create_edge,...}");
         let lname = if r.chance(1, 6) { format!("L{}_{}", id, i) } else { "N".to_string() };
         let l = tx.get_or_create_label(&lname).unwrap();
         let rel = tx.get_or_create_rel_type("R").unwrap();
@@ -39,6 +54,7 @@ fn writer(db: &Db, id: u64, iters: u64, seed: u64, ext: &AtomicU64) {
         for n in &mine {
             tx.set_node_property(*n, "p".into(), PropertyValue::Int(r.range(0, 5))).unwrap();
             if r.chance(1, 3) {
+                set_op("WriteTxn::set_vector");
                 let _ = tx.set_vector(*n, vec![r.range(0, 9) as f32, r.range(0, 9) as f32, 1.0, 0.5]);
             }
         }
@@ -54,8 +70,10 @@ fn writer(db: &Db, id: u64, iters: u64, seed: u64, ext: &AtomicU64) {
             }
         }
         if r.chance(1, 10) {
+            set_op("WriteTxn::drop (abandon)");
             drop(tx); // abandoned transaction
         } else {
+            set_op("WriteTxn::commit");
             let _ = tx.commit();
         }
     }
@@ -64,7 +82,9 @@ fn writer(db: &Db, id: u64, iters: u64, seed: u64, ext: &AtomicU64) {
 fn reader(db: &Db, iters: u64, seed: u64) {
     let mut r = Rng::new(seed);
     for _ in 0..iters {
+        set_op("Db::snapshot");
         let snap = db.snapshot();
+        set_op("GraphSnapshot reads (nodes, node_property, node_properties, resolve_node_labels, neighbors, edge_property, incoming_neighbors)");
         let nodes: Vec<u32> = snap.nodes().take(40).collect();
         for n in &nodes {
             let _ = snap.node_property(*n, "p");
@@ -75,14 +95,20 @@ fn reader(db: &Db, iters: u64, seed: u64) {
             }
             let _ = snap.incoming_neighbors(*n, None).take(3).count();
         }
+        set_op("GraphSnapshot::lookup_index");
         let _ = snap.lookup_index("N", "p", &PropertyValue::Int(r.range(0, 5)));
+        set_op("GraphSnapshot::{node_count,edge_count} (statistics cache)");
         let _ = snap.node_count(None);
         let _ = snap.edge_count(None);
         let _ = snap.resolve_label_id("N");
         // a second snapshot while the first is alive, and a read transaction
+        set_op("Db::snapshot");
         let snap2 = db.snapshot();
+        set_op("GraphSnapshot::{node_count,edge_count} (statistics cache)");
         let _ = snap2.node_count(None);
+        set_op("Db::begin_read");
         let _ = db.begin_read();
+        std::thread::sleep(Duration::from_millis(1)); // stay alive across the compactions of the maintenance threads
     }
 }
 
@@ -91,15 +117,19 @@ fn maintenance(db: &Db, iters: u64, seed: u64) {
     for i in 0..iters {
         match r.below(4) {
             0 => {
+                set_op("Db::compact");
                 let _ = db.compact();
             }
             1 => {
+                set_op("Db::checkpoint");
                 let _ = db.checkpoint();
             }
             2 => {
+                set_op("Db::create_index");
                 let _ = db.create_index("N", if i % 2 == 0 { "p" } else { "q" });
             }
             _ => {
+                set_op("Db::search_vector");
                 let _ = db.search_vector(&[1.0, 2.0, 1.0, 0.5], 3);
             }
         }
@@ -109,17 +139,51 @@ fn maintenance(db: &Db, iters: u64, seed: u64) {
 
 fn capi_worker(db: &CDb, id: u64, iters: u64) {
     for i in 0..iters {
+        set_op("ndb_execute_write");
         let _ = db.exec(&format!("CREATE (:M {{k: {}, t: {}}})", i, id));
         let _ = db.exec("MATCH (n:M) WHERE n.k = 0 SET n.c = 1");
+        set_op("ndb_query");
         let _ = db.query("MATCH (n:M) RETURN count(n) AS c");
         if i % 5 == 0 {
             // explicit transaction through the C API
+            set_op("ndb_begin_write / ndb_txn_query / ndb_txn_commit");
             let mut txn: *mut ndb_capi::ndb_txn_t = std::ptr::null_mut();
             if ndb_capi::ndb_begin_write(db.0, &mut txn) == ndb_capi::NDB_OK {
                 let q = std::ffi::CString::new("CREATE (:M {k: -1})").unwrap();
                 let _ = ndb_capi::ndb_txn_query(txn, q.as_ptr(), std::ptr::null());
                 let _ = ndb_capi::ndb_txn_commit(txn);
             }
+        }
+    }
+}
+
+/// open / close / refused open of databases, offline tools (database file lock)
+fn handles_worker(dir: &std::path::Path, main_db: &std::path::Path, id: u64, iters: u64) {
+    for i in 0..iters {
+        let p = dir.join(format!("side{}_{}", id, i % 3));
+        set_op("Db::open");
+        if let Ok(db) = Db::open(&p) {
+            set_op("Db::open (second handle, refused)");
+            let _ = Db::open(&p).is_err();
+            let _ = Db::open(main_db).is_err();
+            set_op("Db::begin_write");
+            let mut tx = db.begin_write();
+            set_op("WriteTxn::{get_or_create_label,create_node,set_node_property,create_edge,...}");
+            if let Ok(l) = tx.get_or_create_label("S") {
+                let _ = tx.create_node(1000 + i, l);
+            }
+            set_op("WriteTxn::commit");
+            let _ = tx.commit();
+            set_op("nervusdb::vacuum (refused while open)");
+            let _ = nervusdb::vacuum(&p);
+            set_op("Db::close");
+            let _ = db.close();
+            set_op("nervusdb::vacuum");
+            let _ = nervusdb::vacuum(&p);
+        }
+        if i % 4 == 0 {
+            set_op("nervusdb::bulkload");
+            let _ = nervusdb::bulkload(dir.join(format!("bulk{}_{}", id, i)), vec![], vec![]);
         }
     }
 }
@@ -171,6 +235,11 @@ fn main() {
             let cdb = cdb.clone();
             spawn("capi", Box::new(move || capi_worker(&cdb, k, iters / 2 + 1)));
         }
+        {
+            let d = dir.path().to_path_buf();
+            let m = dir.path().join("c35");
+            spawn("handles", Box::new(move || handles_worker(&d, &m, 0, iters / 10 + 2)));
+        }
         let deadline = std::time::Instant::now() + timeout;
         let mut finished = vec![];
         while finished.len() < expected {
@@ -199,28 +268,38 @@ fn main() {
         // the handles are dropped here; all workers are done
     }
 
-    // ---- observed patterns -> ids, rank table
-    let patterns: Vec<(Vec<&'static str>, &'static str)> = log.patterns.lock().unwrap().iter().cloned().collect();
-    let mut names: Vec<&'static str> = LOCKS.to_vec();
+    // ---- observed patterns -> ids with modes, rank table
+    let patterns: Vec<Pattern> = log.patterns.lock().unwrap().iter().cloned().collect();
+    let mut names: Vec<&str> = LOCKS.to_vec();
     for (h, l) in &patterns {
         for x in h.iter().chain(std::iter::once(l)) {
-            if !names.contains(x) {
-                names.push(x);
+            if !names.contains(&split(x).0) {
+                names.push(split(x).0);
             }
         }
     }
-    let id = |x: &str| names.iter().position(|n| *n == x).unwrap();
+    let id = |x: &str| names.iter().position(|n| *n == split(x).0).unwrap();
     let gate = id("write_lock");
-    let pats: Vec<(Vec<usize>, usize)> = patterns.iter().map(|(h, l)| (h.iter().map(|x| id(x)).collect(), id(l))).collect();
-    let leaf = |l: usize| pats.iter().all(|(h, _)| !h.contains(&l) || h.contains(&gate));
+    // (held: (lock, mode)*, requested: (lock, mode))
+    let pats: Vec<(Vec<(usize, &str)>, (usize, &str))> =
+        patterns.iter().map(|(h, l)| (h.iter().map(|x| (id(x), split(x).1)).collect(), (id(l), split(l).1))).collect();
+    let holds = |h: &Vec<(usize, &str)>, l: usize| h.iter().any(|(x, _)| *x == l);
+    let leaf = |l: usize, m: &str| {
+        pats.iter().all(|(h, _)| !holds(h, l) || holds(h, gate))
+            && (m != "MR" || pats.iter().all(|(h, (l2, m2))| !(*l2 == l && *m2 == "MW") || holds(h, gate)))
+    };
     let mut edges: BTreeSet<(usize, usize)> = BTreeSet::new();
-    for (i, (h, l)) in pats.iter().enumerate() {
-        if h.contains(l) {
+    for (i, (h, (l, m))) in pats.iter().enumerate() {
+        if *m == "MTry" {
+            *hist.entry("pattern:try (never waits)".into()).or_insert(0) += 1;
+            continue;
+        }
+        if holds(h, *l) {
             fails += 1;
-            rep.fail(i, None, &format!("re-entrant acquisition: {} requested while already held (held: {:?}); with a waiting writer a second read of a std RwLock deadlocks", patterns[i].1, patterns[i].0),
+            rep.fail(i, None, &format!("re-entrant acquisition: {} requested while the thread already holds it (held: {:?}); a second read of a std RwLock deadlocks as soon as a writer waits, a second lock of a Mutex always", patterns[i].1, patterns[i].0),
                 json!({"pattern": {"held": patterns[i].0, "lock": patterns[i].1}}));
         }
-        if h.contains(&gate) && leaf(*l) {
+        if holds(h, gate) && leaf(*l, m) {
             *hist.entry("pattern:under_gate_exempt".into()).or_insert(0) += 1;
             continue;
         }
@@ -229,7 +308,7 @@ fn main() {
         } else {
             *hist.entry("pattern:nothing_held".into()).or_insert(0) += 1;
         }
-        for x in h {
+        for (x, _) in h {
             edges.insert((*x, *l));
         }
     }
@@ -260,13 +339,20 @@ fn main() {
             json!({"edges_on_or_after_cycle": bad}));
     }
     let events = log.events.load(Ordering::Relaxed);
+    let by_op = log.by_op.lock().unwrap().clone();
+    let coverage: BTreeMap<String, Vec<String>> = by_op
+        .iter()
+        .map(|(op, ps)| (op.to_string(), ps.iter().map(|(h, l)| format!("{:?} -> {}", h, l)).collect()))
+        .collect();
     rep.case(0, json!({"locks": names, "gate": "write_lock",
         "patterns": patterns.iter().map(|(h, l)| json!({"held": h, "lock": l})).collect::<Vec<_>>(),
         "order_edges": edges.iter().map(|(x, l)| format!("{} -> {}", names[*x], names[*l])).collect::<Vec<_>>(),
-        "rank": names.iter().enumerate().map(|(i, n)| format!("{}={}", n, rank[i])).collect::<Vec<_>>()}));
+        "rank": names.iter().enumerate().map(|(i, n)| format!("{}={}", n, rank[i])).collect::<Vec<_>>(),
+        "patterns_by_public_operation": coverage,
+        "threads_per_round": "2 writers + 2 readers + 2 maintenance (compact/checkpoint/create_index/search_vector) on one Db; 2 C API threads on a second Db; 1 handles thread (open/close/refused open/vacuum/bulkload on side databases)"}));
     cw.push(format!(
         "{{| pats := {}; ranks := {}; gate := {}%nat |}}",
-        coq_list(&pats, |(h, l)| format!("({}, {}%nat)", coq_list(h, |x| format!("{}%nat", x)), l)),
+        coq_list(&pats, |(h, (l, m))| format!("({}, ({}%nat, {}))", coq_list(h, |(x, mx)| format!("({}%nat, {})", x, mx)), l, m)),
         coq_list(&(0..nl).collect::<Vec<_>>(), |i| format!("({}%nat, {}%nat)", i, rank[*i].min(1000))),
         gate
     ));
@@ -276,7 +362,8 @@ fn main() {
         "evaluations": events,
         "corr_cases": 1,
         "distinct_nontrivial": pats.iter().filter(|(h, _)| !h.is_empty()).count(),
-        "rule": "lock-acquisition events of 8 worker threads per round (2 writers incl. new labels / indexed properties / vectors / abandoned transactions, 2 readers incl. index lookups, statistics and nested snapshots, 2 maintenance threads: compact / checkpoint / create_index / search_vector, 2 C API threads on a second database incl. explicit transactions); evaluations = events, non-trivial = distinct patterns with a non-empty held set",
+        "operations_covered": by_op.len(),
+        "rule": "lock-acquisition events (with read/write/try modes) of 9 worker threads per round (1 handles thread: open/close/refused open/vacuum/bulkload; 2 writers incl. new labels / indexed properties / vectors / abandoned transactions, 2 readers incl. index lookups, statistics and nested snapshots, 2 maintenance threads: compact / checkpoint / create_index / search_vector, 2 C API threads on a second database incl. explicit transactions); evaluations = events, non-trivial = distinct patterns with a non-empty held set",
         "histogram": hist,
         "direct_failures": fails,
         "distinct_patterns": pats.len(),
